@@ -15,8 +15,12 @@
 //!   //@replace <fn> | <from> | <to>           declared textual rewrite inside one body (must apply >= 1x) (E5/E7)
 //!   //@replace? <fn> | <from> | <to>          same, but allowed not to apply
 //!   //@sig <file> | <sel> | <fn> | <expected real signature>      (whitespace-insensitive)                (E2)
+//!   //@sig? ...                               same, but only the existence of the function is required (functions whose body is
+//!                                             not pasted: their contract is assumed here and checked on the real body by Kani)
 //!   //@struct <file> | <Name> | <expected field list>             (whitespace-insensitive)                (E2)
 //!   (automatic) `_ = e;` inside a pasted body becomes `let _ = e;`                                        (E9)
+//!   (automatic) a call of a private helper of the same repo file that the template does not define and that has no
+//!               early exit is replaced by a block binding its parameters around the helper's own body       (E10)
 //!   //@paste <file> | <sel> | <fn> [| as <key>]   replaced by the verbatim body of that function; <key> (default: <fn>) is the
 //!                                             name under which //@closure, //@loop, //@replace address this paste
 //! <sel>: "<Trait> for <Type>", "inherent <Type>", "trait <Trait>" (default method) or "free" (free function).
@@ -48,7 +52,18 @@ struct Edit {
     rule: &'static str,
 }
 
+/// a private helper defined in the same repo file (inherent / trait-impl method of the same type, or free fn) that the
+/// template does not know: candidates for rule E10 (inlining)
+struct Helper<'f> {
+    sig: &'f syn::Signature,
+    block: &'f syn::Block,
+}
+
 struct Edits<'a> {
+    src: &'a str,
+    helpers: &'a HashMap<String, Helper<'a>>,
+    depth: usize,
+    inlined: Vec<String>,
     ghost: &'a [String],
     closure_specs: &'a HashMap<usize, String>,
     loop_specs: &'a HashMap<usize, String>,
@@ -59,7 +74,62 @@ struct Edits<'a> {
     ins: Vec<Edit>,
 }
 
+struct HasEarlyExit(bool);
+impl<'ast> Visit<'ast> for HasEarlyExit {
+    fn visit_expr_return(&mut self, _: &'ast syn::ExprReturn) { self.0 = true; }
+    fn visit_expr_try(&mut self, _: &'ast syn::ExprTry) { self.0 = true; }
+    fn visit_expr_closure(&mut self, _: &'ast syn::ExprClosure) {} // a `return` inside a closure returns from the closure
+}
+
+fn apply_edits(src: &str, lo: usize, hi: usize, mut ins: Vec<Edit>) -> (String, Vec<Edit>) {
+    ins.sort_by_key(|e| (e.start, std::cmp::Reverse(e.end)));
+    let mut cur = lo;
+    let mut out = String::new();
+    let mut applied = vec![];
+    for e in ins {
+        if e.start < cur { continue; } // nested inside an edit that replaced a larger span
+        out.push_str(&src[cur..e.start]);
+        out.push_str(&e.text);
+        cur = e.end;
+        applied.push(e);
+    }
+    out.push_str(&src[cur..hi]);
+    (out, applied)
+}
+
 impl<'a> Edits<'a> {
+    /// E10: `self.helper(args)` / `Self::helper(self, args)` / `helper(args)` where `helper` is a private function of the same
+    /// file that the template does not know and that has no early exit: replaced by a block that binds the parameters and
+    /// contains the helper's own body (with the same rules applied to it).  Returns the replacement text.
+    fn inline_call(&mut self, name: &str, args: Vec<&syn::Expr>, skip_receiver_arg: bool) -> Option<String> {
+        if self.depth >= 3 { return None; }
+        let h = self.helpers.get(name)?;
+        let mut ee = HasEarlyExit(false);
+        ee.visit_block(h.block);
+        if ee.0 { return None; }
+        let mut params: Vec<(String, String)> = vec![];
+        for inp in h.sig.inputs.iter() {
+            if let syn::FnArg::Typed(pt) = inp {
+                params.push((self.src[pt.pat.span().byte_range()].to_string(), self.src[pt.ty.span().byte_range()].to_string()));
+            }
+        }
+        let args: Vec<&syn::Expr> = if skip_receiver_arg { args.into_iter().skip(1).collect() } else { args };
+        if args.len() != params.len() { return None; }
+        let empty = HashMap::new();
+        let mut sub = Edits { src: self.src, helpers: self.helpers, depth: self.depth + 1, inlined: vec![], ghost: self.ghost, closure_specs: &empty, loop_specs: &empty,
+                              closure_no: 0, loop_no: 0, used_closure: vec![], used_loop: vec![], ins: vec![] };
+        sub.visit_block(h.block);
+        let br = h.block.span().byte_range();
+        let (body, _) = apply_edits(self.src, br.start + 1, br.end - 1, sub.ins);
+        let mut t = String::from("{ ");
+        for ((pat, ty), a) in params.iter().zip(args.iter()) {
+            t.push_str(&format!("let {}: {} = {}; ", pat, ty, &self.src[a.span().byte_range()]));
+        }
+        t.push_str(&format!("/* inlined {} */ {{ {} }} }}", name, body));
+        self.inlined.push(name.to_string());
+        self.inlined.extend(sub.inlined);
+        Some(t)
+    }
     fn loop_body(&mut self, body: &syn::Block) {
         self.loop_no += 1;
         if let Some(spec) = self.loop_specs.get(&self.loop_no) {
@@ -72,6 +142,14 @@ impl<'a> Edits<'a> {
 
 impl<'a, 'ast> Visit<'ast> for Edits<'a> {
     fn visit_expr_method_call(&mut self, m: &'ast syn::ExprMethodCall) {
+        let is_self = matches!(&*m.receiver, syn::Expr::Path(p) if p.path.is_ident("self"));
+        if is_self && self.helpers.contains_key(&m.method.to_string()) {
+            if let Some(t) = self.inline_call(&m.method.to_string(), m.args.iter().collect(), false) {
+                let r = m.span().byte_range();
+                self.ins.push(Edit { start: r.start, end: r.end, text: t, rule: "E10" });
+                return;
+            }
+        }
         if self.ghost.iter().any(|g| m.method == g) {
             let close = start(m.paren_token.span.close());
             let txt = if m.args.is_empty() { "Tracked(log)" } else { ", Tracked(log)" };
@@ -82,6 +160,16 @@ impl<'a, 'ast> Visit<'ast> for Edits<'a> {
     fn visit_expr_call(&mut self, c: &'ast syn::ExprCall) {
         if let syn::Expr::Path(p) = &*c.func {
             let last = p.path.segments.last().map(|s| s.ident.to_string()).unwrap_or_default();
+            let is_self_path = p.qself.is_none() && p.path.segments.len() == 2 && p.path.segments[0].ident == "Self";
+            let is_bare = p.qself.is_none() && p.path.segments.len() == 1;
+            if (is_self_path || is_bare) && self.helpers.contains_key(&last) {
+                let first_is_self = c.args.first().map(|a| matches!(a, syn::Expr::Path(q) if q.path.is_ident("self"))).unwrap_or(false);
+                if let Some(t) = self.inline_call(&last, c.args.iter().collect(), is_self_path && first_is_self) {
+                    let r = c.span().byte_range();
+                    self.ins.push(Edit { start: r.start, end: r.end, text: t, rule: "E10" });
+                    return;
+                }
+            }
             if p.qself.is_some() {
                 // E4b: <Self as Trait<_>>::name  ->  Self::name
                 let r = p.span().byte_range();
@@ -291,6 +379,17 @@ fn main() {
         }
     }
 
+    // names of all functions the template defines (a repo helper of the same name is called, not inlined)
+    let mut template_fns: std::collections::HashSet<String> = std::collections::HashSet::new();
+    for l in tpl.lines() {
+        let code = l.split("//").next().unwrap_or("");
+        if let Some(i) = code.find("fn ") {
+            let rest = &code[i + 3..];
+            let n: String = rest.chars().take_while(|c| c.is_alphanumeric() || *c == '_').collect();
+            if !n.is_empty() { template_fns.insert(n); }
+        }
+    }
+    for g in &ghost { template_fns.insert(g.clone()); }
     let mut cache: HashMap<String, (String, syn::File)> = HashMap::new();
     let mut out = String::new();
     let mut out_line = 1usize; // next line number to be written (1-based)
@@ -308,7 +407,8 @@ fn main() {
     for l in tpl.lines() {
         let t = l.trim();
         let is_paste = t.starts_with("//@paste ");
-        let is_sig = t.starts_with("//@sig ");
+        let is_sig = t.starts_with("//@sig ") || t.starts_with("//@sig? ");
+        let sig_soft = t.starts_with("//@sig? ");
         let is_struct = t.starts_with("//@struct ");
         if !is_paste && !is_sig && !is_struct {
             out.push_str(l);
@@ -369,7 +469,7 @@ fn main() {
             let real = &src[fsig.span().byte_range()];
             // (an implementor's override of a default method may spell its types concretely: the template's own Verus signature
             // then decides whether the pasted body fits)
-            if !overridden && norm(real) != norm(parts[3]) {
+            if !overridden && !sig_soft && norm(real) != norm(parts[3]) {
                 undecided(format!("SIGNATURE-CHANGED {}::{}\n  expected {}\n  found    {}", sel, name, parts[3], real));
             }
             out.push_str(l);
@@ -379,7 +479,31 @@ fn main() {
         }
         let br = fblock.span().byte_range();
         let empty = HashMap::new();
+        // helper table for E10: functions of this repo file that the template does not define
+        let mut helpers: HashMap<String, Helper> = HashMap::new();
+        {
+            let self_ty: Option<String> = if sel == "free" { None } else if let Some(r) = sel.strip_prefix("inherent ") { Some(r.trim().to_string()) }
+                else if sel.starts_with("trait ") { None } else { sel.split(" for ").nth(1).map(|x| x.trim().to_string()) };
+            for item in &parsed.items {
+                match item {
+                    syn::Item::Fn(f) => { helpers.insert(f.sig.ident.to_string(), Helper { sig: &f.sig, block: &f.block }); }
+                    syn::Item::Impl(im) => {
+                        if let (Some(st), Some(ty)) = (&self_ty, type_last_ident(&im.self_ty)) {
+                            if *st == ty {
+                                for ii in &im.items { if let syn::ImplItem::Fn(f) = ii { helpers.insert(f.sig.ident.to_string(), Helper { sig: &f.sig, block: &f.block }); } }
+                            }
+                        }
+                    }
+                    _ => {}
+                }
+            }
+            helpers.retain(|k, _| !template_fns.contains(k) && k != name);
+        }
         let mut ed = Edits {
+            src,
+            helpers: &helpers,
+            depth: 0,
+            inlined: vec![],
             ghost: &ghost,
             closure_specs: closure_specs.get(key).unwrap_or(&empty),
             loop_specs: loop_specs.get(key).unwrap_or(&empty),
@@ -391,12 +515,12 @@ fn main() {
         };
         ed.visit_block(fblock);
         for k in closure_specs.get(key).map(|m| m.keys().cloned().collect::<Vec<_>>()).unwrap_or_default() {
-            if !ed.used_closure.contains(&k) {
+            if !ed.used_closure.contains(&k) && ed.closure_no > 0 {
                 undecided(format!("LOST-ANCHOR closure #{} of {} ({} closures found)", k, name, ed.closure_no));
             }
         }
         for k in loop_specs.get(key).map(|m| m.keys().cloned().collect::<Vec<_>>()).unwrap_or_default() {
-            if !ed.used_loop.contains(&k) {
+            if !ed.used_loop.contains(&k) && ed.loop_no > 0 {
                 undecided(format!("LOST-ANCHOR loop #{} of {} ({} loops found)", k, name, ed.loop_no));
             }
         }
@@ -421,7 +545,7 @@ fn main() {
                 }
             }
         }
-        ins.sort_by_key(|e| (e.start, e.end));
+        ins.sort_by_key(|e| (e.start, std::cmp::Reverse(e.end)));
         // paste the inside of the braces, verbatim, with the edits
         let mut cur = lo;
         let line0 = fblock.span().start().line;
@@ -475,8 +599,8 @@ fn main() {
             .map(|e| format!("{{\"rule\":{},\"at\":{},\"from\":{},\"to\":{}}}", json_str(e.rule), e.start, json_str(&src[e.start..e.end]), json_str(&e.text)))
             .collect();
         map_entries.push(format!(
-            "{{\"fn\":{},\"overridden\":{},\"sel\":{},\"file\":{},\"repo_line_first\":{},\"repo_line_last\":{},\"gen_line_first\":{},\"gen_line_last\":{},\"byte_lo\":{},\"byte_hi\":{},\"closures\":{},\"loops\":{},\"edits\":[{}]}}",
-            json_str(name), overridden, json_str(sel), json_str(file), line0, line1, gen_first, gen_last, lo, hi, n_closures, n_loops, edits_json.join(",")
+            "{{\"fn\":{},\"inlined_helpers\":{},\"overridden\":{},\"sel\":{},\"file\":{},\"repo_line_first\":{},\"repo_line_last\":{},\"gen_line_first\":{},\"gen_line_last\":{},\"byte_lo\":{},\"byte_hi\":{},\"closures\":{},\"loops\":{},\"edits\":[{}]}}",
+            json_str(name), json_str(&applied.iter().filter(|e| e.rule == "E10").map(|e| e.text.split("/* inlined ").nth(1).and_then(|x| x.split(" */").next()).unwrap_or("?").to_string()).collect::<Vec<_>>().join(",")), overridden, json_str(sel), json_str(file), line0, line1, gen_first, gen_last, lo, hi, n_closures, n_loops, edits_json.join(",")
         ));
     }
     std::fs::write(&args[3], out).unwrap_or_else(|e| undecided(format!("write {}: {}", args[3], e)));
